@@ -460,13 +460,23 @@ def main():
         shutil.rmtree(fresh, ignore_errors=True)
 
     # ---- harness --------------------------------------------------------------------------------
+    # a replay file names the engine it was produced with (`# engine=…`); without the line it is the property's own
+    replay_engine = None
+    if args.replay:
+        with open(args.replay, errors="replace") as f:
+            for line in f:
+                m = re.match(r"# engine=(\S+)", line)
+                if m:
+                    replay_engine = m.group(1)
+                    break
+    main_is_target = not (args.replay and replay_engine and replay_engine != prop["engine"])
     binname = prop["harness_bin"]
     brc, bout, bdt = cargo_build(binname, prop.get("harness_features", []))
     binpath = os.path.join(TARGET, "debug", binname)
     ob("correspondence:harness-builds(%s)" % binname, "correspondence", brc == 0, bout[-1500:] if brc else "")
     result = None
     cases_total = 0
-    if brc == 0 and rc == 0:
+    if brc == 0 and rc == 0 and main_is_target:
         if args.replay:
             ops_path = os.path.abspath(args.replay)
         else:
@@ -494,6 +504,51 @@ def main():
         ob("oracle:T3-on-real-behaviour", "oracle", not result["t3"], json.dumps(result["t3"][:3]) if result["t3"] else "")
         cases_total = len(result["cases"])
 
+    # ---- extra runs: further engines that exercise this property (props "extra_runs": [{"engine":…, "harness_bin":…}])
+    # Each is a complete tie of its own (its model executable, its harness, gen/run with --prop <this property>); its T3
+    # lines for this property and its model disagreements count like those of the main run.
+    extra_results = []   # (eprop, ebinpath, result)
+    for ex in prop.get("extra_runs", []):
+        eprop = dict(prop, engine=ex["engine"], harness_bin=ex["harness_bin"], harness_features=ex.get("harness_features", []))
+        if args.replay and replay_engine != ex["engine"]:
+            continue
+        with Lock("lean.lock"):
+            erc, eout, ebroken, edt = lake_build(["amodel-" + ex["engine"]])
+        ob("proof:model-builds(%s)[extra]" % ex["engine"], "proof", erc == 0, eout[-600:] if erc else "")
+        ebrc, ebout, ebdt = cargo_build(ex["harness_bin"], eprop["harness_features"])
+        ebin = os.path.join(TARGET, "debug", ex["harness_bin"])
+        ob("correspondence:harness-builds(%s)[extra]" % ex["harness_bin"], "correspondence", ebrc == 0, ebout[-1500:] if ebrc else "")
+        if erc != 0 or ebrc != 0:
+            continue
+        if args.replay:
+            eops = os.path.abspath(args.replay)
+        else:
+            eops = os.path.join(workdir, "ops-%s.txt" % ex["engine"])
+            cdir = os.path.join(VERIF, "corpus", "%s.%s" % (pid, ex["engine"]))
+            with open(eops, "w") as f:
+                if os.path.isdir(cdir):
+                    for fn in sorted(os.listdir(cdir)):
+                        if fn.endswith(".ops"):
+                            f.write(open(os.path.join(cdir, fn)).read().rstrip("\n") + "\n")
+            egen = os.path.join(workdir, "gen-%s.txt" % ex["engine"])
+            grc, gout, gdt = sh([ebin, "gen", "--prop", pid, "--tier", args.tier, "--seed", str(args.seed), "--out", egen],
+                                env=harness_env(), timeout=3600)
+            if grc != 0:
+                ob("correspondence:gen(%s)[extra]" % ex["engine"], "correspondence", False, gout[-800:])
+                continue
+            with open(eops, "a") as f, open(egen) as g:
+                shutil.copyfileobj(g, f)
+        eres = execute(eprop, pid, ebin, eops, workdir, "extra-" + ex["engine"],
+                       timeout=prop.get("timeout_s", {}).get(args.tier, 1800 if args.tier == "quick" else 7200))
+        ob("correspondence:harness-run(%s)[extra]" % ex["harness_bin"], "correspondence", eres["harness_rc"] == 0,
+           ("rc=%d %s" % (eres["harness_rc"], eres["harness_out"][-600:])) if eres["harness_rc"] else "")
+        ob("correspondence:model-agrees(%s)[extra]" % ex["engine"], "correspondence", not eres["disagreements"],
+           json.dumps(eres["disagreements"][:3]) if eres["disagreements"] else "")
+        ob("oracle:T3-on-real-behaviour(%s)[extra]" % ex["engine"], "oracle", not eres["t3"], json.dumps(eres["t3"][:3]) if eres["t3"] else "")
+        extra_results.append((eprop, ebin, eres))
+        if args.replay:
+            result = eres   # the replay belongs to this engine: print it below
+
     if args.replay and result is not None:
         for c in result["cases"]:
             for o, r in zip(c["ops"], c["real"]):
@@ -517,8 +572,10 @@ def main():
             f.write(text)
         return p
 
-    def handle_t3_failures(res, label):
+    def handle_t3_failures(res, label, prop=prop, binpath=None):
         """group T3 failures by case, shrink the first few distinct ones"""
+        if binpath is None:
+            binpath = os.path.join(TARGET, "debug", prop["harness_bin"])
         by_case = collections.OrderedDict()
         for t in res["t3"]:
             by_case.setdefault((t["case"], t.get("case_index")), []).append(t)
@@ -547,11 +604,19 @@ def main():
             if kn:
                 known_hits.append((key, kn["what"]))
                 continue
-            text = "# property %s: oracle failure on the REAL code (%s)\n# %s\n# key=%s shrink_runs=%d\n" % (pid, label, ts[0]["msg"], key, runs) + "\n".join(small) + "\n"
+            text = "# property %s: oracle failure on the REAL code (%s)\n# engine=%s\n# %s\n# key=%s shrink_runs=%d\n" % (pid, label, prop["engine"], ts[0]["msg"], key, runs) + "\n".join(small) + "\n"
             violations.append((write_replay("%s-%s.ops" % (pid, key), text), ts[0]["msg"]))
 
-    if result is not None and result["t3"]:
+    any_t3 = False
+    if result is not None and result["t3"] and main_is_target:
         handle_t3_failures(result, "main run")
+        any_t3 = True
+    for eprop, ebin, eres in extra_results:
+        if eres["t3"]:
+            handle_t3_failures(eres, "run of the %s engine" % eprop["engine"], prop=eprop, binpath=ebin)
+            any_t3 = True
+    if any_t3:
+        pass
     elif broken_obs and not args.replay:
         # an obligation broke without an oracle failure: search for a failing input
         found = False
@@ -649,6 +714,12 @@ def main():
         })
         if prop.get("exhaustive_note"):
             cov["exhaustive_note"] = prop["exhaustive_note"]
+        if extra_results:
+            cov["extra_runs"] = [{
+                "engine": ep["engine"], "harness_bin": ep["harness_bin"], "cases": len(er["cases"]),
+                "evaluations": sum(len(c["ops"]) for c in er["cases"]), "model_disagreements": len(er["disagreements"]),
+                "oracle_failures_on_real_code": len(er["t3"]),
+            } for ep, _, er in extra_results]
     else:
         cov["samples"] = [{"obligation": o["name"], "ok": o["ok"]} for o in obligations[:10]]
     ev = {
